@@ -26,7 +26,7 @@ BY_ID = {}
 
 class Case:
     def __init__(self, prop, name, fn, symbols, mode="real", tier="quick", spare=24, max_paths=300, timeout=60.0,
-                 functions=(), kind="proof", explore_time=300.0, expect=None, assumptions=(), oracle=True, also=()):
+                 functions=(), kind="proof", explore_time=300.0, expect=None, assumptions=(), oracle=True, also=(), bound="", share=False):
         self.prop = prop
         self.props = (prop,) + tuple(also)
         self.name = name
@@ -43,6 +43,8 @@ class Case:
         self.expect = expect
         self.assumptions = list(assumptions)
         self.oracle = oracle
+        self.bound = bound
+        self.share = share  # obligations without an explicit prop count for every property in `also`
         self.id = "%s/%s" % (prop, name)
 
 
@@ -187,6 +189,20 @@ class SymCtx(_CtxBase):
         """decide a formula on the current path (forks)"""
         return bool(b)
 
+    def factor_hint(self, product, factors):
+        """ghost lemma: product == prod(factors) (checked here by exact normal form); the factorisation is
+        then available to the algebraic back end (zero-product rule) for polynomials too large to factor"""
+        from gvc import alg
+
+        product = Sym.const(product)
+        tot = Sym.const(1)
+        for f in factors:
+            tot = tot * Sym.const(f)
+        diff = product - tot
+        if not diff.is_zero_nf():
+            raise AssertionError("factor_hint: the claimed factorisation is not an identity")
+        alg.add_factor_hint(product.n, [Sym.const(f).n for f in factors])
+
     def note(self, what):
         self.ex.note(what)
 
@@ -233,6 +249,9 @@ class NumCtx(_CtxBase):
     def is_true(self, b):
         return bool(b)
 
+    def factor_hint(self, product, factors):
+        pass
+
     def stubs(self, **kw):
         import contextlib
 
@@ -271,6 +290,8 @@ def run_case(case_id, tier="quick", seed=0, timeout_scale=1.0):
 
     t0 = time.time()
     case = BY_ID[case_id]
+    if case.kind == "bounded":
+        return run_bounded(case_id, tier, seed)
     patch.activate()
     ring = SymRing(case.symbols, mode=case.mode, spare=case.spare)
     oracle = None
@@ -316,6 +337,7 @@ def run_case(case_id, tier="quick", seed=0, timeout_scale=1.0):
             rec = dict(
                 name=ob.name,
                 prop=ob.info.get("prop") or case.prop,
+                props=[ob.info["prop"]] if ob.info.get("prop") else (list(case.props) if case.share else [case.prop]),
                 path=p.id,
                 status=v.status,
                 backend=v.backend,
@@ -335,9 +357,58 @@ def run_case(case_id, tier="quick", seed=0, timeout_scale=1.0):
     return summary
 
 
+class BoundedCtx(NumCtx):
+    """native enumeration context for bounded stand-ins: ensure(name, ok, witness=...) is called once per enumerated input"""
+
+    def __init__(self, case, seed=0):
+        NumCtx.__init__(self, {}, case)
+        self.counts = {}
+        self.fail = {}
+        self.seed = seed
+        self.only = None  # replay: evaluate only this witness key
+
+    def ensure(self, name, b, excuse=None, witness=None, **info):
+        try:
+            ok = bool(_np.all(b))
+        except Exception:
+            ok = False
+        c = self.counts.setdefault(name, [0, 0])
+        c[0] += 1
+        if ok:
+            c[1] += 1
+        elif name not in self.fail:
+            self.fail[name] = witness
+
+
+def run_bounded(case_id, tier="quick", seed=0):
+    """bounded stand-in: the harness enumerates a finite input set natively (real numpy, unpatched geometer)"""
+    t0 = time.time()
+    case = BY_ID[case_id]
+    ctx = BoundedCtx(case, seed)
+    ctx.tier = tier
+    summary = dict(case=case.id, prop=case.prop, kind="bounded", mode="native", functions=case.functions, obligations=[], paths=0, gaps=[],
+                   error=None, assumptions=list(case.assumptions), bound=getattr(case, "bound", ""))
+    try:
+        with _np.errstate(all="ignore"):
+            case.fn(ctx)
+    except Exception:
+        summary["error"] = "bounded harness crashed: " + traceback.format_exc()[-1500:]
+    for name, (n, ok) in ctx.counts.items():
+        w = ctx.fail.get(name)
+        summary["obligations"].append(dict(name=name, prop=case.prop, props=list(case.props) if case.share else [case.prop], path=0, status="proved" if n == ok else "refuted", backend="bounded-enumeration",
+                                           seconds=0.0, detail="%d/%d inputs" % (ok, n), model=None, witness=repr(w)[:600] if w is not None else None,
+                                           goal="holds on every enumerated input", npc=0, pc=[], exception=None, excuse=None, evaluations=n))
+    summary["wall_s"] = round(time.time() - t0, 3)
+    return summary
+
+
 def replay_case(case_id, model):
     """native replay (real numpy, unpatched geometer) of a model.  Returns list of (clause, ok) and notes."""
     case = BY_ID[case_id]
+    if case.kind == "bounded":
+        r = run_bounded(case_id)
+        return dict(case=case_id, results=[(o["name"], o["status"] == "proved") for o in r["obligations"]], exception=r["error"], applicable=True,
+                    witnesses={o["name"]: o.get("witness") for o in r["obligations"] if o["status"] != "proved"})
     ctx = NumCtx(model, case)
     out = dict(case=case_id, results=[], exception=None, applicable=True)
     try:
